@@ -273,7 +273,28 @@ def image_constructor_sites(repo, tier):
                 fnode = dict((id(c), f) for c, f in sites)[id(call)]
                 n_sites += 1
                 kw = call_kwargs(call, names)
-                if any(k_.arg is None for k_ in call.keywords):
+                star = [k_ for k_ in call.keywords if k_.arg is None]
+                expanded = True
+                for k_ in star:
+                    lit = None
+                    if isinstance(k_.value, ast.Name) and isinstance(fnode, (ast.FunctionDef, ast.AsyncFunctionDef)):
+                        defs = single_defs(fnode, k_.value.id)
+                        if len(defs) == 1 and defs[0][0] == "assign":
+                            lit = defs[0][1]
+                        # later item stores kwargs["k"] = v are not followed
+                        if any(isinstance(n, ast.Subscript) and isinstance(n.value, ast.Name) and n.value.id == k_.value.id and isinstance(n.ctx, ast.Store)
+                               for n in own_walk(fnode)) or any(isinstance(n, ast.Call) and isinstance(n.func, ast.Attribute) and isinstance(n.func.value, ast.Name)
+                                                                and n.func.value.id == k_.value.id and n.func.attr in ("update", "setdefault", "pop") for n in own_walk(fnode)):
+                            lit = None
+                    elif isinstance(k_.value, (ast.Dict, ast.Call)):
+                        lit = k_.value
+                    if isinstance(lit, ast.Dict) and all(isinstance(x, ast.Constant) and isinstance(x.value, str) for x in lit.keys):
+                        kw.update({x.value: v for x, v in zip(lit.keys, lit.values)})
+                    elif isinstance(lit, ast.Call) and dotted(lit.func) == "dict" and not lit.args and all(x.arg for x in lit.keywords):
+                        kw.update({x.arg: x.value for x in lit.keywords})
+                    else:
+                        expanded = False
+                if star and not expanded:
                     obls.append(ground_obligation(f"C04/{short(rel)}::{q}/call-pre#{cls}-invariants@{k}", False,
                                                   f"{rel}:{call.lineno} **kwargs constructor call", rel, definite=False))
                     continue
@@ -436,6 +457,10 @@ def _number_obligation(oid, rel, mod, ix, call, fnode, cls, nf, e, default, give
     if isinstance(e, ast.BinOp) and isinstance(e.op, ast.Add) and any(isinstance(x, ast.Constant) and isinstance(x.value, int) and x.value >= 1 for x in (e.left, e.right)) \
             and any(isinstance(x, ast.Call) and dotted(x.func) == "len" for x in (e.left, e.right)):
         return res(True, f"{nf}=len(...) + k with k >= 1")
+    if isinstance(e, ast.BinOp) and isinstance(e.op, ast.Add) and isinstance(fnode, (ast.FunctionDef, ast.AsyncFunctionDef)):
+        okp, whyp = _store_positive(ix, fnode, ix.stmt_of(call), e)
+        if okp:
+            return res(True, f"{nf}={ast.unparse(e)}: {whyp}")
     if not given:
         d = default.value if isinstance(default, ast.Constant) else None
         if isinstance(d, int) and d >= 1:
@@ -811,6 +836,15 @@ def _strings_of_iterable(ix, at, it, pos, fnode, depth):
 
 
 def _store_positive(ix, fnode, stmt, value):
+    if isinstance(value, ast.BinOp) and isinstance(value.op, ast.Add):
+        for a, b in ((value.left, value.right), (value.right, value.left)):
+            if isinstance(a, ast.Name) and isinstance(b, ast.Constant) and isinstance(b.value, int):
+                ld = enclosing_loop_def(ix, stmt, a.id, fnode)
+                if ld is not None and ld[2] == 0 and _enumerate_start(ld[1]) is not None:
+                    tot = _enumerate_start(ld[1]) + b.value
+                    return tot >= 1, f"enumerate(..., start={_enumerate_start(ld[1])}) + {b.value}"
+            if isinstance(a, ast.Call) and dotted(a.func) == "len" and isinstance(b, ast.Constant) and isinstance(b.value, int) and b.value >= 1:
+                return True, "len(...) + k with k >= 1"
     if isinstance(value, ast.Name):
         ld = enclosing_loop_def(ix, stmt, value.id, fnode)
         if ld is not None and ld[2] == 0 and _enumerate_start(ld[1]) is not None:
@@ -1041,12 +1075,16 @@ class ChrAnalysis:
                         return res
             if a is self.fnode:
                 break
-        if isinstance(self.fnode, (ast.FunctionDef, ast.AsyncFunctionDef)):
+        if isinstance(self.fnode, (ast.FunctionDef, ast.AsyncFunctionDef, ast.Module)):
             defs = single_defs(self.fnode, name)
             if len(defs) == 1 and defs[0][0] == "assign":
                 res = self.expr(defs[0][1], defs[0][2])
             elif len(defs) == 1 and defs[0][0] == "for" and defs[0][2] is None:
-                res = self.iter_range(defs[0][1], at)
+                res = self.element(defs[0][1], at)
+            elif defs and all(d[0] == "for" for d in defs):
+                ld = enclosing_loop_def(self.ix, at, name, self.fnode)
+                if ld is not None and ld[2] is None:
+                    res = self.element(ld[1], at)
         if res is not None:
             # one z3 variable per program variable so that guards talk about the same value
             v = z3.Int(f"var_{name}")
@@ -1260,6 +1298,15 @@ def _chr_obligation(oid, rel, mod, ix, fnode, call, pats, q, k, kind="call", pay
     p = ix.parent.get(id(call))
     if kind == "call" and isinstance(p, ast.Subscript) and p.slice is call and isinstance(p.ctx, ast.Store):
         return ground_obligation(oid, True, f"{loc} {src} is only used as a dictionary key (not a source of text)", rel)
+    if kind == "call" and isinstance(p, ast.Assign) and len(p.targets) == 1 and isinstance(p.targets[0], ast.Name) and p.value is call:
+        v = p.targets[0].id
+        uses = [n for n in own_walk(fnode) if isinstance(n, ast.Name) and n.id == v and isinstance(n.ctx, ast.Load)]
+        def key_use(n):
+            pp = ix.parent.get(id(n))
+            return (isinstance(pp, ast.Subscript) and pp.slice is n) or (isinstance(pp, ast.Compare) and any(isinstance(o, (ast.In, ast.NotIn)) for o in pp.ops) and pp.left is n)
+        n_bind = len(single_defs(fnode, v))
+        if uses and n_bind == 1 and all(key_use(n) for n in uses):
+            return ground_obligation(oid, True, f"{loc} {src} is only used (via {v}) as a dictionary key (not a source of text)", rel)
     A = ChrAnalysis(mod, ix, fnode, pats)
     if kind == "value" or payload is None:
         o = ground_obligation(oid, False, f"{loc} `{src}`: the builtin chr / a character format is used in a way whose integer argument "
